@@ -45,6 +45,8 @@ def twin_texts():
         body = "(%s) {\n\t%s\n\tret void\n}\n" % (param, inst)
         out.append(("twin.named." + name, HEAD + "define void @f" + body + "\ndefine void @f2" + body))
     for name, text, _ in catalog.inst_entries():
+        if name.startswith("inst-md."):
+            continue
         i = text.find("define ")
         if i < 0:
             continue
